@@ -202,6 +202,18 @@ def replay(rec):
         return (not ok), msg
     if obs.startswith('helper'):
         return _helper_concrete(rec)
+    if obs.startswith('supported_raises'):
+        msgs = []
+        for c_, a_ in ((cfg, rec['a']), (dict(rec.get('cfg2', {})), rec['b'])):
+            c_ = dict(c_)
+            for b_ in ('wp', 'ip'):
+                if b_ in c_ and rec['spec'].startswith('mpic'):
+                    c_[b_] = torch.tensor(int(c_[b_]))
+            try:
+                concrete_eval(rec['spec'], rec['kind'], c_, a_)
+            except (AssertionError, KeyError, ValueError, NotImplementedError) as e_:
+                msgs.append(f'{type(e_).__name__}: {e_}'[:160])
+        return bool(msgs), '; '.join(msgs) or 'both precision pairs are accepted'
     if obs.startswith('dw_vs_generic'):
         a = concrete_eval(rec['spec'], rec['kind'], cfg, rec['a'])
         g = concrete_eval(rec['spec'], rec['kind'].replace('_dw', ''), cfg, dict(rec['a'], cin=1, cout=1))
@@ -503,11 +515,23 @@ def _bits_one(res, spec_name, kind, k, b1, b2, selftest):
                 v['theta'] = th
                 d1['theta'] = _t(th)
             d2, _ = _dims(ex, kind, cfg_of(b2), shared=v)
-            c1 = _val(eval_cost(spec_name, kind, d1))
-            c2 = _val(eval_cost(spec_name, kind, d2))
+            try:
+                c1 = _val(eval_cost(spec_name, kind, d1))
+                c2 = _val(eval_cost(spec_name, kind, d2))
+            except (AssertionError, KeyError, ValueError, NotImplementedError) as e_:
+                # every pair here is a precision the model declares supported: a rejection is a violation ("finite non-negative for every valid layer")
+                return v, 'RAISED', f'{type(e_).__name__}: {e_}'[:200]
         return v, c1, c2
     ex = Explorer(timeout_ms=Q)
     for pc, (v, c1, c2) in ex.explore(fn):
+        if isinstance(c1, str) and c1 == 'RAISED':
+            res.oblige(False)
+            r0, m0 = ex.must()
+            a = _model_vals(m0, v)
+            rec = {'spec': spec_name, 'kind': kind, 'cfg': _cfg_json(cfg_of(b1)), 'cfg2': _cfg_json(cfg_of(b2)), 'a': a, 'b': a,
+                   'observable': 'supported_raises', 'key': f'{spec_name}|{kind}|supported_precision_rejected:{b1}/{b2}'}
+            _report(res, rec, f'{spec_name}:{kind}: a supported precision pair ({b1} or {b2}) is rejected: {c2}', selftest)
+            continue
         r, m = ex.check(st.e_lt(c2, c1))
         if r == 'unknown':
             res.inconclusive.append(f'bits {spec_name}:{kind}:{b1}->{b2}: unknown')
